@@ -500,7 +500,8 @@ def run_guard_many(ctx, cfg):
         try:
             base = [gm_build(ctx, "gm_a%d" % i, sc["cents"], sc["recs"][i]) for i in range(k)]
         except ValueError as e:
-            if "contains no data" in str(e):
+            # creation refused (a centre that attracts no record): no catalogs, no statement about the guard
+            if "contains no data" in str(e) or "do not match" in str(e):
                 ctx.bump("guardn-scene-skipped"); continue
             raise
         ref_radii_deg = [float(x) for x in np.rad2deg(base[sc["ref"]][0].get_radii().data)]
@@ -524,8 +525,12 @@ def run_guard_many(ctx, cfg):
                         cat, p = gm_build(ctx, "gm_v%d" % i, given[i], sc["recs"][i])
                     cats.append(cat); pts.append(p)
             except ValueError as e:
-                if "contains no data" in str(e):
-                    ctx.bump("guardn-variant-skipped:%s" % kind); continue
+                if "contains no data" in str(e) or "do not match" in str(e):
+                    ctx.bump("guardn-variant-skipped:%s" % kind)
+                    for c in cats:
+                        if all(c is not b[0] for b in base):
+                            shutil.rmtree(str(c.cache_directory), ignore_errors=True)
+                    continue
                 raise
             obs = [gm_observe(c) for c in cats]
             entries = ["linkage", {2: "auto", 3: rng.choice(["cross/ref_rand", "cross/unk_rand"]), 4: "cross/both"}[k]]
